@@ -270,6 +270,65 @@ func driverBig(c *Ctx) {
 			}
 		}
 	}
+	routeEvents(c, &idx)
+}
+
+// routeCases: the size limit reached by other routes than a constructor - an ASCII variable filled with a string
+// (unbounded, bounded above the limit, bounded at the limit), alone, in a list and in a message; in the thorough tier
+// also a nested list grown past the limit by an ellipsis
+func routeEvents(c *Ctx, idx *int) {
+	const max = 1<<24 - 1
+	for _, b := range [][2]int{{0, -1}, {0, 20000000}, {max + 1, max + 1}, {0, max}, {max, -1}} {
+		for _, n := range []int{max, max + 1} {
+			for _, via := range []string{"item", "list", "msg"} {
+				*idx++
+				if !c.want(*idx) || c.Arg == "flat" {
+					continue
+				}
+				v := ast.NewASCIINodeVariable("v", b[0], b[1])
+				vals := map[string]interface{}{"v": strings.Repeat("x", n)}
+				var enc []byte
+				refused, _ := try(func() {
+					switch via {
+					case "item":
+						enc = v.FillVariables(vals).ToBytes()
+					case "list":
+						enc = ast.NewListNode(v).FillVariables(vals).ToBytes()
+					default:
+						enc = ast.NewDataMessage("", 1, 1, 0, "H->E", v).SetSessionIDAndSystemBytes(7, []byte{1, 2, 3, 4}).FillVariables(vals).ToBytes()
+					}
+				})
+				ev := J{"ev": "bigroute", "route": "asciifill", "lo": b[0], "hi": b[1], "n": n, "via": via, "built": !refused, "enclen": len(enc), "head": []int{}}
+				if len(enc) > 24 {
+					ev["head"] = bytesJ(enc[:24])
+				} else {
+					ev["head"] = bytesJ(enc)
+				}
+				c.emit(*idx, ev)
+				c.count("big.route")
+				runtime.GC()
+			}
+		}
+	}
+	if c.Tier != "thorough" {
+		return
+	}
+	for _, n := range []int{max - 1, max} { // n more copies: n+1 elements
+		*idx++
+		if !c.want(*idx) || c.Arg == "flat" {
+			continue
+		}
+		t := ast.NewListNode(ast.NewListNode(ast.NewUintNode(1, 1), "..."), ast.NewBooleanNode(true))
+		var enc []byte
+		refused, _ := try(func() { enc = t.FillVariables(map[string]interface{}{"...": n}).ToBytes() })
+		ev := J{"ev": "bigroute", "route": "ellipsis", "lo": 0, "hi": 0, "n": n + 1, "via": "list", "built": !refused, "enclen": len(enc), "head": []int{}}
+		if len(enc) > 24 {
+			ev["head"] = bytesJ(enc[:24])
+		}
+		c.emit(*idx, ev)
+		c.count("big.route")
+		runtime.GC()
+	}
 }
 
 func flatEvent(kind string, n int) J {
@@ -334,6 +393,9 @@ func seqCases() [][]seqKid {
 	for _, pair := range [][2]int{{2, 1}, {1, 2}, {2, 0}, {1, 0}, {2, 2}, {1, 1}} {
 		out = append(out, []seqKid{next(cls[pair[0]]), next(cls[pair[1]])})
 	}
+	// children that together, or alone with their header, are longer than the longest single item: a list's length
+	// field counts elements, not bytes
+	out = append(out, []seqKid{{"B", 9000000}, {"A", 9000000}}, []seqKid{{"A", 1<<24 - 1}}, []seqKid{{"U1", 1<<24 - 1}, {"B", 3}})
 	return out
 }
 
